@@ -129,6 +129,8 @@ impl Lexer<'_> {
 
         let mut cursor = cursor::Cursor::new(source);
         let mut buffer = WorkTokenizedBuffer::new(source);
+        #[cfg(sas_lexer_verif)]
+        buffer.verif_apply_knobs();
 
         // Skip BOM if present
         let cur_token_start = CharOffset::new(u32::from(cursor.eat_char(BOM)));
@@ -139,6 +141,8 @@ impl Lexer<'_> {
 
         // Allocate stack vector with initial mode
         let mut mode_stack = Vec::with_capacity(MAX_EXPECTED_STACK_DEPTH);
+        #[cfg(sas_lexer_verif)]
+        crate::verif::apply_vec_cap(&mut mode_stack, crate::verif::knobs().mode_stack_cap);
         mode_stack.push(init_mode.unwrap_or_default());
 
         // Calculate default macro nesting level which is 0, meaning we are not in a macro
@@ -185,6 +189,11 @@ impl Lexer<'_> {
     ///
     /// Make sure to always clear the checkpoint via `clear_checkpoint` if not rolling back
     fn checkpoint(&mut self) {
+        #[cfg(sas_lexer_verif)]
+        crate::verif::emit(crate::verif::Event::Checkpoint {
+            was_live: self.checkpoint.is_some(),
+        });
+
         // We should always make sure to clear any checkpoints
         debug_assert!(self.checkpoint.is_none());
 
@@ -200,11 +209,21 @@ impl Lexer<'_> {
 
     /// Clear the checkpoint, without rolling back
     fn clear_checkpoint(&mut self) {
+        #[cfg(sas_lexer_verif)]
+        crate::verif::emit(crate::verif::Event::ClearCheckpoint {
+            was_live: self.checkpoint.is_some(),
+        });
+
         self.checkpoint = None;
     }
 
     /// Rollback the lexer to the last checkpoint, clearing it in the process.
     fn rollback(&mut self) {
+        #[cfg(sas_lexer_verif)]
+        crate::verif::emit(crate::verif::Event::Rollback {
+            had_checkpoint: self.checkpoint.is_some(),
+        });
+
         if let Some(checkpoint) = self.checkpoint.take() {
             self.cursor = checkpoint.cursor;
             self.cur_token_byte_offset = checkpoint.cur_token_byte_offset;
@@ -450,8 +469,21 @@ impl Lexer<'_> {
         #[cfg(any(feature = "opti_stats", test))]
         let mut max_mode_stack_depth = 0usize;
 
+        #[cfg(sas_lexer_verif)]
+        crate::verif::emit(crate::verif::Event::LexStart {
+            len: self.source_len,
+        });
+
         while let Some(next_char) = self.cursor.peek() {
             self.lex_token(next_char);
+
+            #[cfg(sas_lexer_verif)]
+            #[allow(clippy::cast_possible_truncation)]
+            crate::verif::emit(crate::verif::Event::MainLoop {
+                remaining: self.cursor.remaining_len(),
+                mode_depth: self.mode_stack.len() as u32,
+                checkpoint_live: self.checkpoint.is_some(),
+            });
 
             #[cfg(any(feature = "opti_stats", test))]
             {
@@ -492,6 +524,13 @@ impl Lexer<'_> {
 
         self.finalize_lexing();
 
+        #[cfg(sas_lexer_verif)]
+        #[allow(clippy::cast_possible_truncation)]
+        crate::verif::emit(crate::verif::Event::LexEnd {
+            tokens: self.buffer.token_count(),
+            errors: self.errors.len() as u32,
+        });
+
         #[cfg(any(feature = "opti_stats", test))]
         {
             LexResult {
@@ -513,6 +552,12 @@ impl Lexer<'_> {
     /// This function gracefully unwinds the stack, emitting any ephemeral
     /// tokens and errors if necessary, and adds the mandatory EOF token.
     fn finalize_lexing(&mut self) {
+        #[cfg(sas_lexer_verif)]
+        #[allow(clippy::cast_possible_truncation)]
+        crate::verif::emit(crate::verif::Event::Finalize {
+            mode_depth: self.mode_stack.len() as u32,
+        });
+
         // Iterate over the mode stack in reverse and unwind it
         while let Some(mode) = self.mode_stack.pop() {
             // Release the shared reference to the mode by cloning it
